@@ -88,11 +88,12 @@ func vGenValue(tag string) *gnmi.TypedValue {
 // vNoSync: the harness does not generate the SYNCHRONOUS strategy (a synchronous Get waits in goroutines)
 var vNoSync bool
 
-// vGenExtensions: none, a well-formed strategy (sync or async), well-formed overrides, garbage bytes under either id,
+// vGenExtensions: none, a well-formed strategy (sync or async), well-formed overrides (also an entry without a value / with an
+// empty value for a target of the request), garbage bytes under either id,
 // an unrelated id, or a non-registered extension
 func vGenExtensions(tag string) []*gnmi_ext.Extension {
 	k := verifrt.NondetInt(tag + ".kind")
-	verifrt.Assume(k >= 0 && k <= 6)
+	verifrt.Assume(k >= 0 && k <= 8)
 	reg := func(id gnmi_ext.ExtensionID, msg []byte) []*gnmi_ext.Extension {
 		return []*gnmi_ext.Extension{{Ext: &gnmi_ext.Extension_RegisteredExt{RegisteredExt: &gnmi_ext.RegisteredExtension{Id: id, Msg: msg}}}}
 	}
@@ -116,6 +117,15 @@ func vGenExtensions(tag string) []*gnmi_ext.Extension {
 		return reg(configapi.TargetVersionOverridesID, []byte{0xff})
 	case 5:
 		return reg(99, []byte{1})
+	case 7:
+		// a map entry that carries a key and no value decodes to a nil *TargetTypeVersion
+		ov := &configapi.TargetVersionOverrides{Overrides: map[string]*configapi.TargetTypeVersion{"t1": nil}}
+		b, _ := proto.Marshal(ov)
+		return reg(configapi.TargetVersionOverridesID, b)
+	case 8:
+		ov := &configapi.TargetVersionOverrides{Overrides: map[string]*configapi.TargetTypeVersion{"t1": {}}}
+		b, _ := proto.Marshal(ov)
+		return reg(configapi.TargetVersionOverridesID, b)
 	}
 	return []*gnmi_ext.Extension{{Ext: &gnmi_ext.Extension_MasterArbitration{MasterArbitration: &gnmi_ext.MasterArbitration{}}}, {}}
 }
